@@ -382,6 +382,19 @@ Theorem C07_cbcs_unparsable_refused :
 Proof. split; [exact cbcs_unparsable_refused_avc|exact cbcs_unparsable_refused_hevc]. Qed.
 Print Assumptions C07_cbcs_unparsable_refused.
 
+(* an empty NAL unit IN FRONT of another NAL unit (< 2^24 bytes), AVC cbcs: refused (the code takes the top byte 0 of
+   the next length field for a NAL header of video type 0 and hands the empty NAL unit to avc.ParseSliceHeader).  For
+   cenc such samples are inside C07_partition / C07_cenc_shape; as the LAST NAL unit an empty one is inside the cbcs
+   theorems too *)
+Theorem C07_cbcs_empty_inside_refused_avc : forall spsmap ppsmap pre n2 post,
+  (forall m, In m pre -> nonempty m = true /\
+             (first_is_video avc_is_video m = true -> exists sh, parse_slice_er spsmap ppsmap m = Ok sh)) ->
+  lenN n2 < 16777216 ->
+  lenN (frames (pre ++ [] :: n2 :: post)) < 4294967296 ->
+  avc_protect_ranges spsmap ppsmap Cbcs (frames (pre ++ [] :: n2 :: post)) = Err.
+Proof. exact cbcs_empty_inside_refused_avc. Qed.
+Print Assumptions C07_cbcs_empty_inside_refused_avc.
+
 (* trun.data_offset after encryption, on the bytes of the fragment: the moof grows by exactly |saiz|+|saio|+|senc|,
    so does the offset Fragment.Encode writes (data_offset = moof size + mdat header, see C07_offsets_grow_struct), and
    reading sample i of the ENCRYPTED file (moof || mdat) through the grown offset returns the encrypted sample i -
